@@ -77,7 +77,7 @@ PROPS = {
     ),
     "C06": dict(
         level="exploration",
-        rule="histories 'read M1; snapshot; read M2..Mk; compare': M1 is drawn over the data types that could be views into the input (Address incl. vendor-specific, IPv4, IPv6, unknown AVPs with and without vendor, OctetString, groups nested to depth 3 containing them), body below and above the 1 KiB pooled buffer; M2..Mk have the same layout with different bytes and are read - and written out again, as a relay does - on the same reader, another reader, another goroutine, or concurrently with a goroutine that keeps re-rendering M1 (race build: any write into memory reachable from a returned message is a reported data race); plus a handler on a real connection that keeps every message and re-renders it after the rest arrived. GC is disabled during plain-build histories so that pooled buffers are really reused. distinct_nontrivial counts distinct (data type, depth, big, mode) classes.",
+        rule="histories 'read M1; snapshot; read M2..Mk; compare': M1 is drawn over the data types that could be views into the input (Address incl. vendor-specific, IPv4, IPv6, unknown AVPs with and without vendor, OctetString, groups nested to depth 3 containing them), body below and above the 1 KiB pooled buffer; the retained message may carry a v4-mapped IPv6 address or lack the padding of its last AVP (non-canonical form); M2..Mk have the same layout with different bytes and are read - and written out again, as a relay does - on the same reader, another reader, another goroutine, or concurrently with a goroutine that keeps re-rendering M1 (race build: any write into memory reachable from a returned message is a reported data race); plus a handler on a real connection that keeps every message and re-renders it after the rest arrived. GC is disabled during plain-build histories so that pooled buffers are really reused. distinct_nontrivial counts distinct (data type, depth, big, mode) classes.",
         runs=dict(quick=[plain("TestC06", 8), race("TestC06", 4)], thorough=[plain("TestC06", 16, 3000), race("TestC06", 8, 3000)]),
         floor=dict(quick=10000, thorough=300000),
         need_events=["histories_checked", "conn_histories"],
